@@ -143,3 +143,23 @@ Proof.
   vm_compute. discriminate.
 Qed.
 Print Assumptions C17_nonvacuous.
+
+(** ** The version word inside the locking protocol (border model, all interleavings) *)
+From Yk Require Import BorderDefs BorderProofs VersionProtoProofs.
+
+(** lock is mutually exclusive: the lock bit is set iff exactly one thread is inside a critical section *)
+Theorem C17_mutex : forall tr s,
+  brun true binit tr = Some s ->
+  (b_locked s = true <->
+   exists t, in_cs (t_pc (b_thr s t)) = true /\
+             forall t', in_cs (t_pc (b_thr s t')) = true -> t' = t).
+Proof. intros tr s H. exact (proj1 (border_lock_and_representation tr s H)). Qed.
+Print Assumptions C17_mutex.
+
+(** two equal (stable) versions taken at different times prove that no insert completed in
+    between: the insert counter is bumped by exactly the unlock of an insert and never decreases
+    (counter unbounded in the protocol model: fewer than 2^29 inserts between the two reads) *)
+Theorem C17_equal_stable_no_completed_insert : forall fixed tr s s',
+  brun fixed s tr = Some s' -> b_vins s' = b_vins s -> completes_in_run fixed s tr = false.
+Proof. exact equal_counter_no_completed_insert. Qed.
+Print Assumptions C17_equal_stable_no_completed_insert.
